@@ -557,6 +557,32 @@ def _numeric_values(seq, fname):
     return vals
 
 
+def _float_sum(ip, vals, tag):
+    """sum of values already promoted to xs:float / xs:double.  F&O lets the items be added in any
+    order, so the result is unique only when every partial sum is exact: all values are multiples of
+    a common power of two q with sum(|x|)/q below the mantissa range.  Otherwise the exact rational
+    sum and the error bound of recursive summation are left in ip.inexact_sum (no exact verdict)."""
+    xs = [v[1] for v in vals]
+    acc = xs[0]
+    for x in xs[1:]:
+        acc = acc + x
+        if tag == 'f':
+            acc = f32(acc)
+    if all(math.isfinite(x) for x in xs) and any(x != 0 for x in xs):
+        fr = [Fraction(x) for x in xs]
+        q = Fraction(1, max(f.denominator for f in fr))
+        mant = 2 ** (24 if tag == 'f' else 53)
+        total_abs = sum(abs(f) for f in fr)
+        # smallest power of two dividing every value
+        nums = [abs(f / q).numerator for f in fr if f]
+        shift = min((n & -n).bit_length() - 1 for n in nums)
+        q = q * 2 ** shift
+        if total_abs / q >= mant:
+            eps = Fraction(1, mant // 2)
+            ip.inexact_sum = (sum(fr), len(xs) * eps * total_abs)
+    return (tag, acc)
+
+
 def fn_sum(ip, a):
     if not a[0]:
         if len(a) == 1:
@@ -571,20 +597,31 @@ def fn_sum(ip, a):
         # returned" vs "all values must be numeric": the text is contradictory for one non-numeric item
         raise Budget('sum of a single non-numeric item: no verdict')
     vals = _numeric_values(a[0], 'sum')      # $zero is not needed (XPath 3.1 2.3.4: need not be evaluated)
+    tag = common_tag(vals)
+    vals = [promote(v, tag) for v in vals]   # "converted to a common type by promotion", then added
+    if tag in 'fD':
+        return [_float_sum(ip, vals, tag)]
     acc = vals[0]
     for it in vals[1:]:
         acc = num_add(acc, it)
-    return [promote(acc, common_tag(vals))]
+    return [acc]
 
 
 def fn_avg(ip, a):
     if not a[0]:
         return []
     vals = _numeric_values(a[0], 'avg')
-    acc = vals[0]
-    for it in vals[1:]:
-        acc = num_add(acc, it)
-    acc = promote(acc, common_tag(vals))
+    tag = common_tag(vals)
+    vals = [promote(v, tag) for v in vals]
+    if tag in 'fD':
+        acc = _float_sum(ip, vals, tag)
+        if ip.inexact_sum is not None:
+            ex, bound = ip.inexact_sum
+            ip.inexact_sum = (ex / len(vals), bound / len(vals) + abs(ex / len(vals)) * Fraction(1, 2 ** (23 if tag == 'f' else 52)))
+    else:
+        acc = vals[0]
+        for it in vals[1:]:
+            acc = num_add(acc, it)
     return [num_div_count(acc, len(vals))]
 
 
@@ -847,6 +884,7 @@ class Interp:
         self.steps = 0
         self.budget = budget
         self.order_dependent = False      # an implementation-dependent order was produced somewhere
+        self.inexact_sum = None           # (exact rational, error bound) of an order-dependent float sum
         self.calls = 0                    # dynamic function calls performed
         self.max_depth = 0
         self._depth = 0
